@@ -662,3 +662,36 @@ Definition orphans (s : mmst) : Z :=
           || existsb (fun p => p_timer p =? t_id t) (piggys s))) (timers s))).
 Fixpoint run_orphans (s : st) (es : list event) : Z :=
   orphans (mm s) + match es with [] => 0 | e :: rest => run_orphans (fst (step s e)) rest end.
+
+(* ---------------------------------------------------------------- Context.shutdown with a transport that does not finish closing
+   (protocol.py:514-536): the interface shutdown tasks run under asyncio.wait(..., timeout=SHUTDOWN_TIMEOUT).  TokenManager.shutdown and
+   MessageManager.shutdown do their synchronous part at once (tables cleared, timers cancelled) and then await
+   message_interface.shutdown(); if that never returns, Context.shutdown returns when the time-out timer fires.  Layered over the
+   machine above: [c_wait] is the deadline of that timer while Context.shutdown is still waiting. *)
+Definition SHUTDOWN_TIMEOUT : Z := 3000000.
+Record cst := { c_base : st; c_wait : option Z }.
+Inductive cevent :=
+| CShutdown (closes : bool)      (* Context.shutdown(); [closes]: the transport's shutdown() returns at once *)
+| CEvent (e : event).            (* any event of the context (time passes inside Fire / Advance) *)
+Definition is_done (o : output) : bool := match o with OShutdownDone => true | _ => false end.
+(* the time-out timer of asyncio.wait fires once the clock has reached its deadline *)
+Definition release (c : cst) : cst * list output :=
+  match c_wait c with
+  | Some dl => if dl <=? now (mm (c_base c)) then ({| c_base := c_base c; c_wait := None |}, [OShutdownDone]) else (c, [])
+  | None => (c, [])
+  end.
+Definition cstep (c : cst) (e : cevent) : cst * list output :=
+  match e with
+  | CShutdown closes =>
+      let '(s', out) := shutdown (c_base c) in
+      if closes || negb (existsb is_done out) then ({| c_base := s'; c_wait := c_wait c |}, out)
+      else ({| c_base := s'; c_wait := Some (now (mm (c_base c)) + SHUTDOWN_TIMEOUT) |}, filter (fun o => negb (is_done o)) out)
+  | CEvent e =>
+      let '(s', out) := step (c_base c) e in
+      let '(c', o2) := release {| c_base := s'; c_wait := c_wait c |} in (c', out ++ o2)
+  end.
+Fixpoint crun (c : cst) (es : list cevent) : cst * list (list output) :=
+  match es with
+  | [] => (c, [])
+  | e :: rest => let '(c1, o) := cstep c e in let '(c2, os) := crun c1 rest in (c2, o :: os)
+  end.
